@@ -1236,6 +1236,9 @@ func (g *Generator) generateHeaderMergeLogic(gf *protogen.GeneratedFile) {
 	gf.P("for _, header := range methodHeaders {")
 	gf.P("if header.GetRequired() {")
 	gf.P("allHeaders[strings.ToLower(header.GetName())] = header")
+	gf.P("} else {")
+	gf.P("// an optional method-level declaration replaces a required service-level one")
+	gf.P("delete(allHeaders, strings.ToLower(header.GetName()))")
 	gf.P("}")
 	gf.P("}")
 	gf.P()
